@@ -63,3 +63,12 @@ def judge(case, impl, model):
     bad_in = bool(s['anyNonConforming'] or setter and s.get('positionalBad') or posbad)
     return {'corr': corr, 'pfail': pfail, 'finding': finding, 'nontrivial': bool(bad_in or s['badProduced']),
             'tag': f"{case['x']['kind']}/{case['x']['access'][0]}/{case['x']['flavour']}/bad={int(bad_in)}{int(s['badProduced'])}/{out}", 'why': why}
+
+
+def twins(case):
+    """amplified run: primed twins of call-layer cases (one def executed twice with other annotations, number twins: _call_common.twins)"""
+    return C.twins(case)
+
+
+import _checker_common as _K
+export_state, import_state = _K.export_state, _K.import_state      # the name table travels with replays / amplified runs
